@@ -69,6 +69,10 @@ def iff(a, b):
     return bool(a) == bool(b)
 
 
+def sum32(x):
+    return bin(int(x) & 0xFFFFFFFF).count("1")
+
+
 def tok(s):
     return s
 
@@ -77,7 +81,7 @@ def trunc(x):
     return int(x)
 
 
-BASE_NS = {"eq": eq, "isnan": isnan, "isfinite": isfinite, "isinf": isinf, "bit": bit, "iff": iff, "tok": tok,
+BASE_NS = {"eq": eq, "isnan": isnan, "isfinite": isfinite, "isinf": isinf, "bit": bit, "iff": iff, "tok": tok, "sum32": sum32,
            "floor": math.floor, "ceil": math.ceil, "trunc": trunc, "np": np, "math": math, "len": len, "abs": abs,
            "min": min, "max": max, "int": int, "float": float, "range": range, "all": all, "any": any, "sum": sum,
            "bool": bool, "rint": lambda x: float(np.rint(x))}
@@ -170,8 +174,10 @@ def build_arg(ty, w):
     """witness json -> concrete python/numpy argument for a declared type"""
     if isinstance(w, dict) and w.get("__dataset__"):
         return build_dataset(w)
+    if isinstance(ty, dict):
+        return {k: build_arg(t, w[k]) for k, t in ty.items()}
     if isinstance(ty, (list, tuple)):
-        return tuple(build_arg(t, x) for t, x in zip(ty, w))
+        return [build_arg(t, x) for t, x in zip(ty, w)] if isinstance(ty, list) else tuple(build_arg(t, x) for t, x in zip(ty, w))
     if ty in ("int",):
         return int(w)
     if ty == "float":
@@ -337,6 +343,16 @@ def default_sample(cc, rng):
         ty = cc.types[p]
         if isinstance(ty, str) and ty.startswith("func:"):
             args[p] = resolve(cc.options.get("replay_" + p, ty[5:]))
+        elif isinstance(ty, (dict, list, tuple)):
+            def gen(t):
+                if isinstance(t, dict):
+                    return {k: gen(x) for k, x in t.items()}
+                if isinstance(t, (list, tuple)):
+                    return [gen(x) for x in t]
+                if t == "int":
+                    return int(rng.integers(-3, 12))
+                raise ValueError("no default sampler for %r" % (t,))
+            args[p] = gen(ty)
         elif ty == "int":
             args[p] = int(rng.integers(-3, 9))
         elif ty == "float":
